@@ -234,7 +234,27 @@ namespace Track
 	}
       else if (state == DecodeState::LookingForRecord)
 	{
+	  // If the ID address mark of another sector turns up before
+	  // the record, then the record belonging to the sector ID we
+	  // just read is missing or unreadable.  The record which
+	  // follows that later ID is not ours.
+	  auto next_id = bits.scan_for(thisbit,
+				       0xAAAAAAAAF57E,
+				       0xFFFFFFFFFFFF);
 	  std::optional<unsigned int> found = find_record_address_mark();
+	  if (next_id && (!found || next_id->first < thisbit))
+	    {
+	      if (verbose)
+		{
+		  std::cerr << "No record found for sector " << sec.address
+			    << " before the next sector ID\n";
+		}
+	      // Resume at the start of that ID address mark (scan_for
+	      // reports the position of the last of its 48 bits).
+	      thisbit = next_id->first - 47u;
+	      state = DecodeState::LookingForAddress;
+	      continue;
+	    }
 	  if (!found)
 	    break;
 	  const bool discard_record = *found == 0xF56A;
